@@ -205,7 +205,7 @@ CHECKS = {
                    "stuck state (no progress for two watchdog periods, capacity free, workers inside Acquire) is a violation. Exploration of forced interleavings, not all schedules.",
         require=["scenarios", "quiescent_snapshots", "scenarios_reaching_their_schedule_point", "snapshots_with_blocked_callers",
                  "reached/after-failed-attempt-1", "reached/queue.after_push", "reached/queue.before_push", "reached/loser-retry",
-                 "reached/handoff-vs-cancel", "reached/handoff-vs-timeout", "reached/next-in-line-cancelled-but-not-evicted", "reached/asleep", "reached/parallel-releases", "reached/slow-inner-release", "reached/helper-before-lock", "reached/winner-cancelled-at-wakeup", "reached/release-after-a-rejection-at-the-full-backlog", "reached/second-release-inside-the-strategy", "reached/refused-handoff-with-a-cancelled-head", "stress_runs", "stress_grants"],
+                 "reached/handoff-vs-cancel", "reached/handoff-vs-timeout", "reached/next-in-line-cancelled-but-not-evicted", "reached/asleep", "reached/parallel-releases", "reached/slow-inner-release", "reached/helper-before-lock", "reached/winner-cancelled-at-wakeup", "reached/release-after-a-rejection-at-the-full-backlog", "reached/second-release-inside-the-strategy", "reached/refused-handoff-with-a-cancelled-head", "reached/cancel-right-after-the-handoff", "stress_runs", "stress_grants"],
         rule="scenario grid = limiter kind (7) x release point (12-16) x capacity {1,2} x waiters {1,2,3} x outcome (3); quick runs the grid 3 times, thorough 1500 "
              "times with PRNG pause budgets / strategy kind / targeted waiter; non-trivial = schedule point reached and some waiter granted; distinct = distinct scenario tuples.",
         assumptions=COMMON_ASSUME + ["sync.Cond.Wait, channel ops and select are durably blocking in a bubble, sync.Mutex is not (a caller waiting for a mutex counts as running)",
